@@ -6,6 +6,8 @@
  * alphabet), ctx (every initial byte in every parent context, all truncations),
  * gram (systematic + random well-formed trees and their single-edit
  * neighbours), deep (nesting chains around the limit), seq (C14). */
+#include <stdio_ext.h>
+
 #include "vh.h"
 
 static int P;            /* 1, 2, 5, 14 */
@@ -14,6 +16,7 @@ static size_t CAP = 65536;
 static size_t LIM;       /* nesting limit of the linked library */
 static size_t g_minlen;  /* inputs shorter than this are covered by the exhaustive byte sweep: not counted again */
 static bool g_stage_exhaustive;
+static uint64_t g_describe_n;
 
 static const char* code_name(int c) {
   static const char* n[] = {"NONE", "NOTENOUGHDATA", "NODATA", "MALFORMATED", "MEMERROR", "SYNTAXERROR"};
@@ -87,7 +90,18 @@ static void c01_case(const uint8_t* src, size_t n) {
     if (r.read == 0 || r.read > n) vh_violation("read-out-of-range", "item returned with read=%zu for a %zu-byte buffer", r.read, n);
     size_t nodes = walk_count_nodes(it);
     VH_MAX("max_nodes_in_tree", nodes);
-    cbor_describe(it, devnull);
+    {
+      /* describe writes to the caller's stream and must leave its configuration (buffer, mode) as it found it;
+       * one case in 4096 uses the process's own stderr object, which clients commonly pass */
+      FILE* out = (g_describe_n++ & 4095) == 7 && nodes <= 8 ? stderr : devnull;
+      fputc(' ', out); fflush(out); /* stdio sets a stream's buffer up lazily at its first use: do that before sampling */
+      size_t b0 = __fbufsize(out); int l0 = __flbf(out);
+      cbor_describe(it, out);
+      if (__fbufsize(out) != b0 || __flbf(out) != l0)
+        vh_violation("describe-changed-stream-state", "cbor_describe left the caller's %s with a different buffer (size %zu -> %zu, line-buffered %d -> %d): hidden change of process-global stdio state; later output would go through a buffer the caller did not provide",
+                     out == stderr ? "stderr" : "stream", b0, __fbufsize(out), l0, __flbf(out));
+      if (out == stderr) VH_COUNT("ops.describe_to_stderr", 1);
+    }
     size_t sz = cbor_serialized_size(it);
     if (sz) {
       uint8_t* out = malloc(sz);
